@@ -13936,7 +13936,7 @@ int cgi_set_posit(int fn, int B, int n, int *index, char **label)
 
     /* get file pointer */
     cg = cgi_get_file(fn);
-    if (cg == 0) return CG_OK;
+    if (cg == 0) return CG_ERROR;
 
     base = cgi_get_base(cg, B);
     if (base == 0) return CG_NODE_NOT_FOUND;
